@@ -11,7 +11,7 @@ for d in $IDS; do
   P=$(echo "$R" | grep VIOLATION | grep -v "/bounded_" | wc -l)
   B=$(echo "$R" | grep VIOLATION | grep "/bounded_" | wc -l)
   OTHER=$(echo "$R" | grep -E "UNDECIDED|STALE|CHECKER|PATCH-DOES-NOT" | head -1 | cut -c1-60)
-  NEEDS=$(python3 -c "import json,sys;print(json.load(open('seeded/$d/meta.json')).get('needs_to_manifest','')[:140].replace('|','/').replace('\n',' '))")
+  NEEDS=$(python3 -c "import json,sys;print(json.load(open('seeded/$d/meta.json')).get('needs_to_manifest','')[:140].replace('|','/').replace(chr(10),' ').replace(chr(39),''))")
   grep -v "^| $d " "$OUT" > "$OUT.tmp"; mv "$OUT.tmp" "$OUT"
   echo "| $d | $id | $([ $P -gt 0 ] && echo yes || echo no) | $([ $B -gt 0 ] && echo yes || echo no)${OTHER:+ ($OTHER)} | $NEEDS |" >> "$OUT"
   echo "$d P=$P B=$B $OTHER"
